@@ -4,6 +4,9 @@ EXTENDS TLC, Json, Naturals, Sequences
 \* one line per transition: use as ACTION_CONSTRAINT. f/t are the projected states, a the action (a tuple whose
 \* first element is the action name), r the result the specification predicts for the call.
 VFEdge(f, a, r, t) == PrintT("VF|" \o ToJson([l |-> TLCGet("level"), f |-> f, a |-> a, r |-> r, t |-> t]))
+\* same, for specifications whose projection is NOT injective (hidden bookkeeping such as sequence numbers): fk / tk are
+\* the full states (normally the VIEW expression); the graph is then keyed by them, while f / t stay what is compared.
+VFEdgeK(fk, f, a, r, tk, t) == PrintT("VF|" \o ToJson([l |-> TLCGet("level"), fk |-> fk, f |-> f, a |-> a, r |-> r, tk |-> tk, t |-> t]))
 \* one line per distinct state: use as INVARIANT (oracle tables, engine E4).
 VFRow(rec) == PrintT("VF|" \o ToJson(rec))
 ====
